@@ -508,9 +508,14 @@ func ruleStatsBin(c *Ctx, r *Rep, tier string) {
 					if iff := ifOf(bo.Block()); iff != nil && iff.Cond == ssa.Value(bo) {
 						for _, b := range rb.Blocks {
 							if i2 := ifOf(b); i2 != nil {
-								if b2, ok := i2.Cond.(*ssa.BinOp); ok && b2.Op == token.EQL && strings.HasSuffix(symKey(b2.X), "in") && dominatedByEdge(rb, b, 0, bo.Block()) {
-									wantCount = k
-									dummyKey = symKey(b2.Y)
+								if b2, ok := i2.Cond.(*ssa.BinOp); ok && b2.Op == token.EQL && dominatedByEdge(rb, b, 0, bo.Block()) {
+									// bins[i].bin == pseudo-bin number, read from either side
+									switch {
+									case strings.HasSuffix(strings.ToLower(symKey(b2.X)), ".bin"):
+										wantCount, dummyKey = k, symKey(b2.Y)
+									case strings.HasSuffix(strings.ToLower(symKey(b2.Y)), ".bin"):
+										wantCount, dummyKey = k, symKey(b2.X)
+									}
 								}
 							}
 						}
